@@ -322,9 +322,60 @@ func checkSortDelegation(c *Ctx, r *Rec) {
 			return true
 		})
 		bad := ""
+		if sorterCall == nil {
+			// the operation may be handed, as a method expression or method value, to a private
+			// helper of the type that applies it to a sorter and to the helper's own receiver
+			ast.Inspect(fd.Body, func(x ast.Node) bool {
+				call, ok := x.(*ast.CallExpr)
+				if !ok || bad != "" {
+					return true
+				}
+				rx, _, _, isM := methodCall(call)
+				hd := c.declOf(calleeOf(info, call))
+				if !isM || hd == nil || hd.Body == nil || c.infoFor(hd) != info || !isObj(info, rx, recv) {
+					return true
+				}
+				hps := paramObjs(info, hd)
+				hrecv := recvObj(info, hd)
+				for ai, a := range call.Args {
+					se, ok := ast.Unparen(a).(*ast.SelectorExpr)
+					if !ok || se.Sel.Name != target || ai >= len(hps) {
+						continue
+					}
+					if sel, ok := info.Selections[se]; !ok || (sel.Kind() != types.MethodExpr && sel.Kind() != types.MethodVal) || c.roleOf(sel.Obj().Pkg()) != "agent" {
+						continue
+					}
+					// inside the helper: operation(<sorter>, receiver)  or  operation(receiver)
+					applied, live := false, false
+					ast.Inspect(hd.Body, func(y ast.Node) bool {
+						if hc, ok := y.(*ast.CallExpr); ok && isObj(info, hc.Fun, hps[ai]) && len(hc.Args) >= 1 {
+							applied = true
+							if isObj(info, hc.Args[len(hc.Args)-1], hrecv) {
+								live = true
+							}
+						}
+						return true
+					})
+					switch {
+					case applied && live:
+						sorterCall = call
+					case applied:
+						bad = "the helper " + hd.Name.Name + " applies the sorter's " + target + " to something else than the live backing array: the collection itself stays as it was"
+					}
+				}
+				return true
+			})
+			if sorterCall != nil {
+				r.ok("D3-live-delegation", c.fdName(fd), c.pos(fd.Pos()), "the sorter's "+target+" is handed to a private helper that applies it to the receiver")
+				continue
+			}
+			if bad == "" {
+				r.skip("D3-live-delegation", c.fdName(fd), c.pos(fd.Pos()), "no call of the sorter's "+target+" in the method itself (done by hand or through a helper the rule does not follow)")
+				continue
+			}
+		}
 		switch {
-		case sorterCall == nil:
-			bad = "the method does not call the sorter's " + target
+		case bad != "":
 		case !isObj(info, sorterCall.Args[0], recv):
 			bad = "the sorter is handed " + exprStr(sorterCall.Args[0]) + " instead of the live backing array: the collection itself stays unsorted"
 		}
@@ -1120,6 +1171,22 @@ func checkSortDriver(c *Ctx, r *Rec, info *types.Info, fd *ast.FuncDecl, merge *
 		if !primed && copiesBefore == 0 {
 			viol = append(viol, "the source array of the first pass is not primed with a copy of the input before the passes")
 		}
+		// a copy after the passes that stands under a condition (say, only when the last target is
+		// not the caller's own array) is a copy the rule does not judge
+		ast.Inspect(fd.Body, func(x ast.Node) bool {
+			if cl, ok := x.(*ast.CallExpr); ok && isBuiltinCall(info, cl, "copy") && len(cl.Args) == 2 && cl.Pos() > outer.End() {
+				nested := true
+				for _, st := range fd.Body.List {
+					if es, ok := st.(*ast.ExprStmt); ok && es.X == ast.Expr(cl) {
+						nested = false
+					}
+				}
+				if nested {
+					copiesAfter++
+				}
+			}
+			return true
+		})
 		if !settled && copiesAfter == 0 {
 			viol = append(viol, "after the last pass the sorted array is not copied into the other one: for an odd number of passes the caller's array keeps the previous pass")
 		}
